@@ -67,9 +67,6 @@ Definition ref_atoms_of (g : graph) (s : step) : list string :=
   | None => []
   end.
 
-(* inline note links (not block references) anywhere in the blocks *)
-Definition has_inline_links (bs : list dblock) : bool := existsb has_inline_note_link bs.
-
 (* sub-sections that an extraction of sub-sections takes *)
 Definition n_subsections (g : graph) (s : step) : nat :=
   match target_tree g s with
@@ -103,7 +100,7 @@ Definition explain_C09 (p : N) : list N :=
   | 1%N => []
   | 2%N => [13; 14]%N
   | 3%N => [13]%N
-  | 4%N => [13; 14; 15; 17; 18]%N
+  | 4%N => [13; 14; 17; 18]%N
   | 5%N => [13; 14; 17; 18]%N
   | 6%N => [2; 13; 14]%N
   | 7%N => [2; 13; 14; 17; 18]%N
@@ -133,7 +130,8 @@ Definition explain_C09 (p : N) : list N :=
     inlined"; such an offer is now a correspondence failure and its resolution an unexcused one)
    13 sequential-key mode and more than one sub-section: one key for all new notes
    14 sequential-key mode and the key `keys+1` is already a note
-   15 inline of a note from another directory that holds inline note links
+   (15 - inline of a note from another directory that holds inline note links, F-C09-cross-dir-inline - is
+    repaired: inline links are kept by key and written relative to the note they are written into)
    17 the result holds a heading deeper than 6 (inline below a deep section)
    18 the result holds two lists of the same type side by side
    (19 - a rule or table right under the text of a tight item - is repaired in the writer, F-TIGHTTAIL) *)
@@ -150,12 +148,7 @@ Definition eval_act (c : actcase) (g : graph) (a : act_obs) : list N * list N :=
     flag 1 (lib_dom lc) ++
     flag 2 (match src_meta with Some _ => false | None => true end) ++
     flag 13 (negb (ac_seq c && Nat.eqb kind 2 && Nat.ltb 1 (n_subsections g s))) ++
-    flag 14 (negb (ac_seq c && (Nat.eqb kind 1 || Nat.eqb kind 2) && mem_str seq_key keys)) ++
-    flag 15 (negb ((Nat.eqb kind 3 || Nat.eqb kind 4) &&
-                   match rk with
-                   | Some k => negb (String.eqb (key_parent k) (key_parent key)) &&
-                               match blocks_of lc k with Some bs => has_inline_links bs | None => false end
-                   | None => false end)) in
+    flag 14 (negb (ac_seq c && (Nat.eqb kind 1 || Nat.eqb kind 2) && mem_str seq_key keys)) in
   let result_blocks :=
     match model_tree_changes (cached_ctx g) (ac_seq c) s with
     | Ok l => flat_map (fun ch => match ch with Update _ parent t => [project parent t] | _ => [] end) l
